@@ -313,4 +313,11 @@ def run(ctx):
             else:
                 for clause, detail in oracle_c17(b, entries2, fm, False):
                     st.oracle_fail("edited-in-place", req2, clause, detail)
+                # every metric is its definition on the tree: the same tree built afresh, analysed by a new object, has
+                # the same report
+                import live
+                afresh = canon_impl(FMMetrics().execute(spec.build_fm(b, mode=live.PLAIN)).get_result())
+                if afresh != irep2[1]:
+                    bad = [x[0] for x, y in zip(irep2[1], afresh) if x != y]
+                    st.oracle_fail("edited-in-place", req2, "history:report-differs-from-the-same-model-built-afresh", str(bad[:6]))
             held = None      # the report handed out before belongs to the model before the edit
